@@ -84,6 +84,8 @@ def make_cer(rid, rc=None, fc=None, hints=None, packages=None, time_conditions=F
     def hint_text(key):
         # hint texts are free text of the AHBs: braces, percent signs, quotes and brackets occur
         decoration = ["", "", " {SG4 IDE+24} zu 100 % 'x'", " (siehe [Kap. 3]) %s {0}"][sum(map(ord, str(key))) % 4]
+        if sum(map(ord, str(key) + rid)) % 23 == 0:
+            return ""  # an empty text is a text (not "no hint")
         return f"H{key}@{rid}{decoration}"
 
     return {
@@ -118,6 +120,7 @@ class Sim:
         self.fc_calls = []  # (rid, key, text)
         self.data_seen = set()  # tokens of the evaluatable-data bodies the requirement evaluators were handed
         self.shared_violation = None  # (clause, detail) of a violation observed by a peer itself
+        self.temporary_directories = []
         self.anonymous_results = {}
         self.probes = {}
         self.sim_time = 0.0
@@ -246,7 +249,12 @@ class Sim:
 
     @staticmethod
     def hint_value(key):
-        return CER.get()["hints"].get(key)
+        text = CER.get()["hints"].get(key)
+        if text and "@" not in text:
+            # a content evaluation result the library generated itself (validity check): the provider's answer still is
+            # this caller's text, so that it can be told apart from another caller's
+            text = f"{text} @{(REQ.get() or '').split('+')[0]}"
+        return text
 
     @staticmethod
     def package_value(key):
@@ -441,6 +449,36 @@ def _make_dict_peers(sim, cer):
             await sim.pause("pkg", package_key)
             return await super().get_condition_expression(package_key)
 
+    if sim.scenario.get("world", {}).get("json_files"):
+        # the shipped JsonFile* classes: the same tables, read from files
+        import json as _json
+        import tempfile
+        from pathlib import Path
+
+        from ahbicht.expressions.hints_provider import JsonFileHintsProvider
+        from ahbicht.expressions.package_expansion import JsonFilePackageResolver
+
+        directory = Path(tempfile.mkdtemp(prefix="sim-json-"))
+        sim.temporary_directories.append(directory)
+        (directory / "packages.json").write_text(_json.dumps(dict(loaded.packages or {})), encoding="utf-8")
+        (directory / "hints.json").write_text(_json.dumps(dict(loaded.hints)), encoding="utf-8")
+
+        class SimJsonPackages(JsonFilePackageResolver):
+            async def get_condition_expression(self, package_key):
+                await sim.pause("pkg", package_key)
+                return await super().get_condition_expression(package_key)
+
+        class SimJsonHints(JsonFileHintsProvider):
+            async def get_hint_text(self, condition_key):
+                await sim.pause("hint", condition_key)
+                return await super().get_hint_text(condition_key)
+
+        return [
+            SimDictRc(loaded.requirement_constraints),
+            SimDictFc(loaded.format_constraints),
+            SimJsonHints(FMT, VER, directory / "hints.json"),
+            SimJsonPackages(FMT, VER, directory / "packages.json"),
+        ]
     return [
         SimDictRc(loaded.requirement_constraints),
         SimDictFc(loaded.format_constraints),
@@ -583,6 +621,10 @@ def run_requests(scenario, do_op, step_cap=200_000):
                 break
     finally:
         inject.clear()
+        import shutil
+
+        for directory in sim.temporary_directories:
+            shutil.rmtree(directory, ignore_errors=True)
     if isinstance(result, BaseException):
         raise result
     sim.loop = None
